@@ -78,7 +78,7 @@ pub fn run(tier: &str, seed: u64) -> Report {
   let mut report = Report::new("C06");
   report.rule = "selection function JsrVersionResolver::get_for_package(..).resolve_version(..) on a 5-version universe \
     (incl. a prerelease) ordered by deno_semver: every registry subset of <=3 versions x yanked flag x created-at class \
-    (none / before / after the cutoff) per version x 9 requirements x already-selected sets (empty, singletons, 3 pairs) x \
+    (none / before / after the cutoff) per version x 9 requirements x already-selected sets (empty, singletons, pairs and triples in several selection orders) x \
     cached sets (empty, all, singletons) x cutoff on/off; quick enumerates a 1-in-5 stride of that space, thorough all of it \
     plus 4- and 5-version registries sampled; VersionReq::matches is tabulated from deno_semver per requirement; \
     NewestDependencyDateOptions::get_for_package compared exhaustively on a name/exclusion grid; \
@@ -105,7 +105,8 @@ pub fn run(tier: &str, seed: u64) -> Report {
   for i in 0..n {
     existing_sets.push(vec![i]);
   }
-  existing_sets.extend([vec![0, 3], vec![1, 4], vec![2, 3]]);
+  // the already-selected versions arrive in the order they were selected, not sorted
+  existing_sets.extend([vec![0, 3], vec![3, 0], vec![1, 4], vec![4, 1], vec![3, 2], vec![3, 1, 4], vec![4, 3, 1]]);
 
   let mut batch = Batch::new();
   batch.descs.push(json!({"universe": UNIVERSE, "reqs": REQS}));
@@ -245,7 +246,8 @@ pub fn run(tier: &str, seed: u64) -> Report {
       .iter()
       .map(|m| (*m, rng.chance(1, 3), match rng.below(3) { 0 => None, 1 => Some(10), _ => Some(50) }))
       .collect();
-    let existing: Vec<usize> = (0..n).filter(|_| rng.chance(1, 4)).collect();
+    let mut existing: Vec<usize> = (0..n).filter(|_| rng.chance(1, 4)).collect();
+    rng.shuffle(&mut existing);
     let cached: Vec<usize> = if rng.chance(1, 2) { vec![] } else { members.iter().copied().filter(|_| rng.chance(1, 2)).collect() };
     let cfg = Cfg { infos, req: rng.below(reqs.len()), existing, cached, cutoff: rng.chance(2, 3) };
     run_cfg(&cfg, &mut report, &mut batch);
